@@ -80,7 +80,7 @@ AgreesA(f, l, h, ins, i) ==
 Apply(ins, what) ==
     /\ ops < MaxOps /\ ops' = ops + 1
     /\ Q' = Replace(Q, ins)
-    /\ G' = IF ins = << >> THEN G ELSE FoldIns(G.f, G.lo, G.hi, ins, 1)
+    /\ G' = IF ins = << >> THEN G ELSE Norm(FoldIns(G.f, G.lo, G.hi, ins, 1))
     /\ okB' = (AgreesB(Q, ins, Replace(Q, ins)) /\ AgreesA(G.f, G.lo, G.hi, ins, 1))
     /\ last' = what
     /\ hyg' = (hyg \/ what.k = "rescan")
@@ -148,9 +148,20 @@ RescanOp == /\ Hyg
 \* partition of an interval (Replace models exactly that).  Reachable through queue_rescans with a range above the end of
 \* the queue and through a tip update below a floor that prune_scan_queue_below(_, None) raised; the ghost `apart`
 \* records it and the interval laws are claimed for the histories without it (a finding of the check, see DESIGN).
+\* rewind_to_chain_state to any target from the block before the birthday on; the wallet settles on any height between
+\* the target and the highest scanned block (which one is the commitment trees' business)
+RewindOp == /\ Hyg
+            /\ \E target \in (Birthday - 1)..top :
+                 \E th \in (IF MaxScanned # NoH /\ target < MaxScanned THEN target..MaxScanned ELSE { NoH }) :
+                    /\ ops < MaxOps /\ ops' = ops + 1
+                    /\ Q' = RewindTo(Q, target, th) /\ G' = RewindTo(G, target, th)
+                    /\ scanned' = IF th = NoH THEN scanned ELSE { x \in scanned : x <= th }
+                    /\ last' = [k |-> "rewind", target |-> target, th |-> th] /\ okB' = TRUE /\ hyg' = TRUE
+                    /\ UNCHANGED << top, ends, wn, apart >>
+
 \* (a history is followed up to its first insertion apart from the queue: from there on the pointwise Replace is no
 \* longer what the row-wise code does)
-Next == ~apart /\ (NewBlocks \/ LearnRoots \/ Tip \/ Scan \/ Trunc \/ PruneOp \/ RescanOp)
+Next == ~apart /\ (NewBlocks \/ LearnRoots \/ Tip \/ Scan \/ Trunc \/ PruneOp \/ RescanOp \/ RewindOp)
 Spec == Init /\ [][Next]_vars
 View == << Q, G, scanned, top, ends, wn, okB, hyg, apart >>
 
@@ -194,6 +205,16 @@ ScanCovers ==
                           ELSE IF inExt(x) THEN Raised(Q.f[x])
                           ELSE IF all[1] <= x /\ x < all[2] THEN Raised(Q.f[x])          \* between two pools' extents: the hull
                           ELSE Q.f[x]]_vars
+\* a rewind leaves nothing queued above the old tip, queues every height above the target up to the old tip, leaves
+\* everything at or below the target alone, and above the target only Historic or what outranks a forced Historic
+RewindLaw ==
+    [][last'.k = "rewind" =>
+         LET t == last'.target  hi == Q.hi
+         IN  \A x \in Hts :
+                /\ x <= t => Q'.f[x] = Q.f[x]
+                /\ (t < x /\ x < hi) => Q'.f[x] \in { Historic, OpenAdjacent, FoundNote, ChainTip, Verify }
+                /\ (t < x /\ x < hi /\ Q'.f[x] # Historic) => Q'.f[x] = Q.f[x]
+                /\ (x >= hi /\ x > t) => Q'.f[x] = None]_vars
 \* a tip update never touches a scanned height and never lowers a priority
 TipMonotone ==
     [][last'.k = "tip" => \A x \in Hts : (Q.f[x] = Scanned => Q'.f[x] = Scanned) /\ (Q.f[x] # None => Q'.f[x] >= Q.f[x])]_vars
